@@ -237,6 +237,28 @@ def qm1(facts, rep, rule='QM-1'):
 
 
 # ------------------------------------------------------------------------------------------------ GD-11 (C20)
+def _upstream_predicates(facts, parent, closure_path):
+    """closures p of `.filter(p)` / `.take_while(p)` / `.skip_while(!)`-free chains feeding the adaptor call that receives the
+    closure `closure_path` (map / filter_map / for_each / flat_map ...) in `parent` or its closures"""
+    out = []
+    for pb in facts.family(parent):
+        for bb, t in pb.calls():
+            for a in t['args']:
+                e = strip(pb.expr_operand(a, inline_user=True))
+                for x in walk(e):
+                    if isinstance(x, tuple) and x[0] == 'call' and len(x) > 2 and x[1].rsplit('::', 1)[-1] in (
+                            'map', 'filter_map', 'for_each', 'flat_map', 'map_while') and len(x[2]) == 2:
+                        f = strip(x[2][1])
+                        if isinstance(f, tuple) and f[0] == 'agg' and f[1] == 'closure' and f[2] == closure_path:
+                            for y in walk(x[2][0]):
+                                if isinstance(y, tuple) and y[0] == 'call' and y[1].rsplit('::', 1)[-1] in ('filter', 'take_while') \
+                                        and len(y[2]) == 2:
+                                    g = strip(y[2][1])
+                                    if isinstance(g, tuple) and g[0] == 'agg' and g[1] == 'closure' and g[2] not in out:
+                                        out.append(g[2])
+    return out
+
+
 def gd11(facts, rep, rule='GD-11'):
     rep.rule(rule, 'ORF minimum length: every Orf that is reported is built behind a length test (`.. > min_len`) on the very start '
                    'position it is built from - a test hoisted to another (e.g. the outermost) start lets too-short nested frames '
@@ -278,6 +300,20 @@ def gd11(facts, rep, rule='GD-11'):
                     common = (svars & gvars) - {1}
                     if common:
                         ok = True
+        if not ok and c.kind == 'Closure' and 2 in svars:
+            # `.filter(pred) / .take_while(pred)` upstream of the `.map(|start| Orf {..})` that builds it: elements reaching the
+            # map closure satisfied pred, so the length test may live there (on pred's own element parameter)
+            for pp in _upstream_predicates(facts, b, c.path):
+                pc = facts.bodies.get(pp)
+                if pc is None:
+                    continue
+                rep.analysed_body(pc)
+                for pbb in pc.reachable(0):
+                    for st in pc.stmts(pbb):
+                        if st['k'] == 'assign' and st['r']['k'] == 'bin' and st['r']['op'] in ('Lt', 'Le', 'Gt', 'Ge'):
+                            e = strip_casts(pc.expr_rvalue(st['r'], inline_user=True))
+                            if 'min_len' in fmt(e) and 2 in roots_of(e):
+                                ok = True
         if not ok:
             bad = (c, bb)
     if bad is not None:
